@@ -1,8 +1,8 @@
 CHECK = {
     "level": "exploration",
     "engine": "ws-concurrency",
-    "technique": "schedule exploration at run time: gated/yielding transport plus hooks at the write-lock points (tag verif), independent RFC 6455 wire parser over the transport log, porcupine close-latch linearizability check of the recorded API history, lock-discipline assertions from hook events, Go race detector",
-    "level_text": "Held on the interleavings observed: hundreds (quick) to tens of thousands (thorough) of runs of one connection with a data writer (frames spanning two transport writes and several frames), a reader answering pings, 1-4 control senders and a closer, (a) free-running with PRNG yields at the lock hook points and inside the transport, (b) directed: every other actor launched while the data writer is parked at a chosen transport write. Every run's transport log must parse as whole well-formed role-correct frames with control frames only between frames, data messages intact and in order, nothing after the Close frame; API results must agree with the wire and be linearizable under the close-latch model; hook events must show mutual exclusion and no leaked lock; zero race reports. Evidence reports distinct wire interleavings, hook events and how often actors were queued behind the parked writer. Not a proof.",
+    "technique": "schedule exploration at run time: gated/yielding transport plus hooks at the write-lock points (tag verif), independent RFC 6455 wire parser over the transport log, porcupine close-latch linearizability check of the recorded API history, lock-discipline assertions from hook events, transport fault injection, delay injection at the latch mutex with spinning racers (closewindow), Go race detector",
+    "level_text": "Held on the interleavings observed: hundreds (quick) to tens of thousands (thorough) of runs of one connection with a data writer (frames spanning two transport writes and several frames), a reader answering pings, 1-4 control senders and a closer, (a) free-running with PRNG yields at the lock hook points and inside the transport, (b) directed: every other actor launched while the data writer is parked at a chosen transport write, (c) closewindow: racing senders spinning at their lock-wait hook point until the closer's unlock hook point, with delay injection at the latch's mutex. Close frames go through WriteControl or the data writer's own APIs; pings/pongs with and without payload; client frames with 64-bit lengths; a third of the stress runs with an injected transport write fault (timeout/reset, 0..n-1 bytes accepted), after which nothing may follow a cut frame. Every run's transport log must parse as whole well-formed role-correct frames with control frames only between frames, data messages intact and in order, nothing after the Close frame; API results must agree with the wire and be linearizable under the close-latch model; hook events must show mutual exclusion and no leaked lock; zero race reports. Evidence reports distinct wire interleavings, hook events and how often actors were queued behind the parked writer. Not a proof.",
     "level_note": "Which queued actor is admitted next is the Go runtime's choice (observed, never required). After Close() of the underlying connection only wire integrity and the race verdict apply. Hooks: /repo commit listed in MANIFEST.hooks.",
     "parts": [
         {"name": "stress", "pkg": "websocket", "run": "^TestVerif_C15_Stress$", "race": True, "timeout": {"quick": 900, "thorough": 7200}},
